@@ -75,8 +75,12 @@ pub fn build<C: BlsSignatureImpl + Clone>(lib: &Lib, c: &Value, rng: &mut ChaCha
     let id = lib.msg::<C>(&c["id"]);
     let ct0 = pk.encrypt_time_lock(scheme0, &msg, &id).map_err(|e| format!("seal refused: {e}"))?;
     // the genuine ciphertext is opened with the genuine signature first (same thread)
+    // ... and then refused with a signature over another identifier
     if let Ok(gs) = lib.sk::<C>(k).sign(scheme0, &id) {
         let _ = ct0.decrypt(&gs).is_some();
+    }
+    if let Ok(ws) = lib.sk::<C>(k).sign(scheme0, b"another, longer identifier used before the judged call") {
+        let _ = ct0.decrypt(&ws).is_some();
     }
     let other = pk.encrypt_time_lock(scheme0, &msg, &id).map_err(|e| format!("seal refused: {e}"))?;
     let ops = geta(c, "ops");
